@@ -1776,11 +1776,29 @@ def check_C17(v, tier, seed):
 def check_C16(v, tier, seed):
     n = sizes(tier, 2000, 40000)
     threads = sizes(tier, 8, 16)
+    # the id generator on millions of draws (the model takes its range as given): every id in [INT_MIN, -4096]
+    os.environ["VERIF_ERRID_SOAK"] = str(sizes(tier, 4000000, 60000000))
+    vlib.ENV["VERIF_ERRID_SOAK"] = os.environ["VERIF_ERRID_SOAK"]
     runs = [Run("C16-errtable", ["errtable", "--seed", str(seed), "--n", str(n), "--threads", str(threads)])]
     concrete = set()
     r = runs[0]
-    stats = {"stores": 0, "takes_some": 0, "takes_none": 0, "threads": threads}
+    stats = {"stores": 0, "takes_some": 0, "takes_none": 0, "threads": threads, "id_draws_soaked": 0}
     for c in r.cases:
+        if c.op == ["errtable_threads"]:
+            for t in c.extra.get("soak", []):
+                kv = dict(x.split("=", 1) for x in t if "=" in x)
+                stats["id_draws_soaked"] = int(kv.get("n", "0"))
+                if kv.get("bad", "none") != "none":
+                    k, i = kv["bad"].split(":")
+                    v.fail({"kind": "oracle", "oracle": f"id {i} out of range", "draw": int(k)},
+                           case_replay(c, f"failing call number {k} of the process returned the error id {i}, which is not in "
+                                          f"[INT_MIN, -4096] (a C caller takes it for a descriptor or an -errno)"))
+                    concrete.add((r.name, c.id))
+                if kv.get("lost", "none") != "none":
+                    k, i = kv["lost"].split(":")
+                    v.fail({"kind": "oracle", "oracle": f"id {i} not retrievable", "draw": int(k)},
+                           case_replay(c, f"failing call number {k} returned the error id {i}, for which pathrs_errorinfo has nothing"))
+                    concrete.add((r.name, c.id))
         if c.op != ["errtable_threads"]:
             continue
         stored = {}
